@@ -12,7 +12,10 @@ KNOWN = os.path.join(VERIF, "KNOWN_FINDINGS.txt")
 TRUSTED_BASE = [
     "Coq 8.16.1 kernel (coqc, full .vo builds) incl. its vm_compute machine; no native_compute",
     "axioms: none declared here; per-theorem Print Assumptions output is recorded in 'axioms' (only C15's *_value theorems depend on any: the standard library's ClassicalDedekindReals.sig_forall_dec, sig_not_dec, FunctionalExtensionality.functional_extensionality_dep, Classical_Prop.classic, through Flocq/Reals)",
-    "translator/*.py + clang 14 JSON AST (generated definitions are bridge-proved equal to the hand model)",
+    "translator/*.py + clang 14 JSON AST (generated definitions are bridge-proved equal to the hand model); its renderings assumed, not proved: "
+    "float/double parameters as IEEE-754 bit patterns with the union read as identity and isnan as a bit test, CBOR_ASSERT absent (non-DEBUG AST), "
+    "two's-complement signed narrowing, ldexp as an uninterpreted constructor given meaning by PHalfShape.f32_bits, allocator calls as 'request of n bytes', "
+    "indeterminate locals as arbitrary values, loops as wloop with fuel (DESIGN.md section 8)",
     "extraction (ExtrOcamlBasic only; N/positive stay inductive) + OCaml 4.13.1, for the correspondence only",
     "harness/hx.c, coq/extract/driver.ml, generators, sanitizers (correspondence check)",
     "platform: x86-64 LP64, little-endian branch, IEEE-754, gcc 12",
